@@ -843,4 +843,564 @@ pub(crate) fn t_nocell(c: TCfg, op: NoCellOp) {
     forget(t);
 }
 
+// ------------------------------------------------------------------ family: scrolling (C06)
+
+#[derive(Clone, Copy, PartialEq)]
+pub(crate) enum ScrollOp {
+    Lf,
+    Nel,
+    Ri,
+    Su,
+    Sd,
+    Il,
+    Dl,
+}
+
+/// specification of a scroll of the view rows a..=b by k (1 <= k <= b-a+1) for the post-state
+/// line with absolute index i: where its cells and its soft-wrap mark come from.
+/// `o` / `l`: view offset and line count *before* the step.  Returns (cell source line, mark).
+/// Cell sources are per line: None = blank in the current pen, Some(j) = pre line j.
+pub(crate) fn scroll_spec(o: usize, l: usize, rows: usize, a: usize, b: usize, k: usize, up: bool, i: usize) -> (Option<usize>, MSrc) {
+    if up {
+        if a == 0 {
+            // rows leave through the top of the screen: lines() grows by k
+            if b == rows - 1 {
+                if i < l {
+                    (Some(i), MSrc::Same)
+                } else {
+                    (None, MSrc::Val(false))
+                }
+            } else {
+                let ins = o + b + 1;
+                if i < ins {
+                    (Some(i), if i == o + b { MSrc::Unspec } else { MSrc::Same })
+                } else if i < ins + k {
+                    (None, MSrc::Val(false))
+                } else {
+                    (Some(i - k), MSrc::From(i - k))
+                }
+            }
+        } else if i < o + a {
+            (Some(i), if i == o + a - 1 { MSrc::Unspec } else { MSrc::Same })
+        } else if i + k <= o + b {
+            (Some(i + k), if i + k == o + b { MSrc::Unspec } else { MSrc::From(i + k) })
+        } else if i <= o + b {
+            (None, MSrc::Val(false))
+        } else {
+            (Some(i), MSrc::Same)
+        }
+    } else if i < o + a {
+        (Some(i), if a > 0 && i == o + a - 1 { MSrc::Unspec } else { MSrc::Same })
+    } else if i < o + a + k {
+        (None, MSrc::Val(false))
+    } else if i <= o + b {
+        (Some(i - k), if i == o + b { MSrc::Unspec } else { MSrc::From(i - k) })
+    } else {
+        (Some(i), MSrc::Same)
+    }
+}
+
+pub(crate) fn scroll_growth(rows: usize, a: usize, k: usize, up: bool) -> usize {
+    let _ = rows;
+    if up && a == 0 {
+        k
+    } else {
+        0
+    }
+}
+
+/// T-scroll: LF/NEL/RI (on or off the margin), SU, SD, IL, DL with the cursor row and the
+/// margins constants of the instance; count, column, cells, pens, modes, scrollback symbolic
+pub(crate) fn t_scroll(c: TCfg, op: ScrollOp, nfix: u32) {
+    let mut t = mk_terminal(&c);
+    let pre = snap(&t);
+    let tw = tab_witness(&t);
+    let (cols, rows) = (c.cols, c.rows);
+    let n = if nfix == u32::MAX { any_u16() } else { nfix as u16 };
+    let row = pre.row;
+    let (top, bottom) = (pre.top, pre.bottom);
+    use ScrollOp::*;
+    // the range, direction and count the statement assigns to this command in this state
+    let ildl_range = if row <= bottom { (row, bottom) } else { (row, rows - 1) };
+    let (scrolls, a, b, up, count) = match op {
+        Lf | Nel => (row == bottom, top, bottom, true, 1usize),
+        Ri => (row == top, top, bottom, false, 1usize),
+        Su => (true, top, bottom, true, n1(n)),
+        Sd => (true, top, bottom, false, n1(n)),
+        Il => (true, ildl_range.0, ildl_range.1, false, n1(n)),
+        Dl => (true, ildl_range.0, ildl_range.1, true, n1(n)),
+    };
+    let height = b - a + 1;
+    let k = if count < height { count } else { height };
+    let growth = if scrolls { scroll_growth(rows, a, k, up) } else { 0 };
+    let post_len = pre.len + growth;
+    let o = pre.len - rows;
+    let w = any_wit(post_len, cols);
+    let (line_src, msrc) = if scrolls { scroll_spec(o, pre.len, rows, a, b, k, up, w.i) } else { (Some(w.i), MSrc::Same) };
+    let src = match line_src {
+        None => Src::Blank,
+        Some(j) => Src::From(j, w.c),
+    };
+    let e = resolve(&t, &w, src, msrc, post_len);
+    match op {
+        Lf => t.execute(Function::Lf),
+        Nel => t.execute(Function::Nel),
+        Ri => t.execute(Function::Ri),
+        Su => t.execute(Function::Su(n)),
+        Sd => t.execute(Function::Sd(n)),
+        Il => t.execute(Function::Il(n)),
+        Dl => t.execute(Function::Dl(n)),
+    }
+    assert!(b_len(&t.buffer) == post_len, "[C06][C14] lines() grows by exactly the rows scrolled off the top of a range that starts at the first row, and by nothing otherwise");
+    check_exp!(&t, &w, e, "[C06] scrolling shifts exactly the rows of its range by n, blanks the vacated rows in the current pen and leaves every other line unchanged", "[C06] scrolling keeps the soft-wrap marks of the lines it moves or leaves alone");
+    // cursor
+    let (col, crow, pw) = (t.cursor.col, t.cursor.row, t.pending_wrap);
+    match op {
+        Su | Sd | Il | Dl => {
+            assert!(col == pre.col && crow == pre.row && pw == pre.pending_wrap, "[C06] SU/SD/IL/DL do not move the cursor");
+        }
+        Lf | Nel => {
+            if scrolls {
+                assert!(crow == pre.row, "[C06] LF/NEL on the bottom margin scroll instead of moving");
+            } else {
+                assert!(crow == if pre.row < rows - 1 { pre.row + 1 } else { pre.row }, "[C05] LF/NEL off the bottom margin move down exactly one row");
+            }
+            if op == Nel || pre.new_line {
+                assert!(col == 0 && !pw, "[C05] NEL (and LF in new-line mode) return to the first column");
+            } else {
+                assert!(col == pre.col || (pre.col == cols && col == cols - 1), "[C05] LF keeps the column");
+            }
+        }
+        Ri => {
+            if scrolls {
+                assert!(crow == pre.row && col == pre.col, "[C06] RI on the top margin scrolls instead of moving");
+            } else {
+                assert!(crow == if pre.row > 0 { pre.row - 1 } else { 0 }, "[C05] RI off the top margin moves up exactly one row whatever the origin mode");
+            }
+        }
+    }
+    let mut allow = Allow::default();
+    allow.cursor = true;
+    allow.len = true;
+    frame(&pre, &t, &allow, &tw);
+    assert_inv(&t);
+    kv_cover!(n == 0, "missing / zero count");
+    kv_cover!(count > height, "count larger than the range");
+    kv_cover!(n == 65535, "count 65535");
+    kv_cover!(pre.pen.background.is_some(), "pen with a background colour");
+    kv_cover!(pre.col == cols, "wrap-pending column");
+    kv_cover!(pre.alt, "alternate screen");
+    kv_cover!(!pre.alt, "primary screen");
+    kv_end!();
+    forget(t);
+}
+
+// ------------------------------------------------------------------ family: erase (C07)
+
+#[derive(Clone, Copy, PartialEq)]
+pub(crate) enum EraseOp {
+    Ed0,
+    Ed1,
+    Ed2,
+    El0,
+    El1,
+    El2,
+    Ech,
+}
+
+/// T-erase: ED 0/1/2, EL 0/1/2, ECH n from any InvT state (cursor anywhere incl. wrap pending)
+pub(crate) fn t_erase(c: TCfg, op: EraseOp) {
+    let mut t = mk_terminal(&c);
+    let pre = snap(&t);
+    let tw = tab_witness(&t);
+    let (cols, rows) = (c.cols, c.rows);
+    let n = any_u16();
+    let k = n1(n);
+    let (col, row) = (pre.col, pre.row);
+    let o = pre.len - rows;
+    let w = any_wit(pre.len, cols);
+    use EraseOp::*;
+    let mut src = Src::Same;
+    let mut msrc = MSrc::Same;
+    if w.i >= o {
+        let r = w.i - o;
+        let wc = w.c;
+        // is (r, wc) inside the extent?  the wrap-pending position is column index `cols`
+        let in_extent = match op {
+            El0 => r == row && wc >= col,
+            El1 => r == row && wc <= col,
+            El2 => r == row,
+            Ed0 => (r == row && wc >= col) || r > row,
+            Ed1 => r < row || (r == row && wc <= col),
+            Ed2 => true,
+            Ech => r == row && wc >= col && wc - col < k,
+        };
+        if in_extent {
+            src = Src::Blank;
+        }
+        // soft-wrap mark: cleared when the row's tail is erased; left open where the statement is silent
+        msrc = match op {
+            El0 => {
+                if r == row {
+                    if col < cols { MSrc::Val(false) } else { MSrc::Unspec }
+                } else {
+                    MSrc::Same
+                }
+            }
+            El1 => {
+                if r == row { MSrc::Unspec } else { MSrc::Same }
+            }
+            El2 => {
+                if r == row { MSrc::Val(false) } else { MSrc::Same }
+            }
+            Ed0 => {
+                if r > row {
+                    MSrc::Val(false)
+                } else if r == row {
+                    if col < cols { MSrc::Val(false) } else { MSrc::Unspec }
+                } else {
+                    MSrc::Same
+                }
+            }
+            Ed1 => {
+                if r < row {
+                    MSrc::Val(false)
+                } else if r == row {
+                    MSrc::Unspec
+                } else {
+                    MSrc::Same
+                }
+            }
+            Ed2 => MSrc::Val(false),
+            Ech => {
+                if r == row {
+                    if col >= cols {
+                        MSrc::Unspec
+                    } else if col + k >= cols {
+                        MSrc::Val(false)
+                    } else {
+                        MSrc::Same
+                    }
+                } else {
+                    MSrc::Same
+                }
+            }
+        };
+    }
+    let e = resolve(&t, &w, src, msrc, pre.len);
+    match op {
+        Ed0 => t.execute(Function::Ed(EdScope::Below)),
+        Ed1 => t.execute(Function::Ed(EdScope::Above)),
+        Ed2 => t.execute(Function::Ed(EdScope::All)),
+        El0 => t.execute(Function::El(ElScope::ToRight)),
+        El1 => t.execute(Function::El(ElScope::ToLeft)),
+        El2 => t.execute(Function::El(ElScope::All)),
+        Ech => t.execute(Function::Ech(n)),
+    }
+    check_exp!(&t, &w, e, "[C07] erasing replaces exactly the cells of its extent by blanks in the current pen and leaves every other cell alone", "[C07] a row stops being soft-wrapped when its tail is erased, and no other mark changes");
+    let allow = Allow::default();
+    frame(&pre, &t, &allow, &tw);
+    assert_inv(&t);
+    kv_cover!(col == cols, "wrap-pending column");
+    kv_cover!(pre.pen.background.is_some(), "pen with a background colour");
+    kv_cover!(src == Src::Blank && w.i >= o && w.i - o != row, "a cell of another row is erased");
+    kv_cover!(src == Src::Same && w.i >= o && w.i - o == row, "a cell of the cursor row survives");
+    kv_cover!(w.i < o, "a scrollback line is watched");
+    kv_end!();
+    forget(t);
+}
+
+// ------------------------------------------------------------------ family: ICH / DCH / DECALN (C07)
+
+#[derive(Clone, Copy, PartialEq)]
+pub(crate) enum EditOp {
+    Ich,
+    Dch,
+    Decaln,
+}
+
+pub(crate) fn t_edit(c: TCfg, op: EditOp) {
+    let mut t = mk_terminal(&c);
+    let pre = snap(&t);
+    let tw = tab_witness(&t);
+    let (cols, rows) = (c.cols, c.rows);
+    let n = any_u16();
+    let (col, row) = (pre.col, pre.row);
+    let o = pre.len - rows;
+    let w = any_wit(pre.len, cols);
+    use EditOp::*;
+    let mut src = Src::Same;
+    let mut msrc = MSrc::Same;
+    if w.i >= o {
+        let r = w.i - o;
+        let wc = w.c;
+        match op {
+            Ich => {
+                let room = cols - col; // 0 at the wrap-pending position
+                let k = if n1(n) < room { n1(n) } else { room };
+                if r == row {
+                    msrc = MSrc::Unspec;
+                    if wc >= col {
+                        src = if wc - col < k { Src::Blank } else { Src::From(w.i, wc - k) };
+                    }
+                }
+            }
+            Dch => {
+                let c0 = if col >= cols { cols - 1 } else { col };
+                let room = cols - c0;
+                let k = if n1(n) < room { n1(n) } else { room };
+                if r == row {
+                    msrc = MSrc::Val(false);
+                    if wc >= c0 {
+                        src = if wc + k < cols { Src::From(w.i, wc + k) } else { Src::Blank };
+                    }
+                }
+            }
+            Decaln => {
+                src = Src::Lit('E', Pen::default());
+                msrc = MSrc::Unspec;
+            }
+        }
+    }
+    let e = resolve(&t, &w, src, msrc, pre.len);
+    match op {
+        Ich => t.execute(Function::Ich(n)),
+        Dch => t.execute(Function::Dch(n)),
+        Decaln => t.execute(Function::Decaln),
+    }
+    check_exp!(&t, &w, e, "[C07] ICH/DCH shift the rest of the row, blank the vacated cells in the current pen and drop what falls off; DECALN fills the screen with E; nothing else changes", "[C07] a row stops being soft-wrapped when characters are deleted from it, and no other mark changes");
+    let mut allow = Allow::default();
+    if op == Dch {
+        allow.cursor = true;
+        let c0 = if col >= cols { cols - 1 } else { col };
+        assert!(t.cursor.col == c0 && t.cursor.row == row && !t.pending_wrap, "[C07] DCH leaves the wrap-pending column first and otherwise keeps the cursor");
+    }
+    frame(&pre, &t, &allow, &tw);
+    assert_inv(&t);
+    kv_cover!(col == cols, "wrap-pending column");
+    kv_cover!(n == 0, "missing / zero count");
+    kv_cover!(n == 65535, "count 65535");
+    kv_cover!(matches!(src, Src::From(_, _)), "a shifted cell is watched");
+    kv_cover!(src == Src::Blank, "a vacated cell is watched");
+    kv_end!();
+    forget(t);
+}
+
+// ------------------------------------------------------------------ family: print (C04)
+
+/// the VT100 special-graphics set, 0x60..=0x7e, as Unicode code points (two entries have two
+/// code points in common use for the same glyph: diamond U+25C6/U+2666, centred dot U+00B7/U+22C5)
+const GFX: [u32; 31] = [
+    0x25c6, 0x2592, 0x2409, 0x240c, 0x240d, 0x240a, 0x00b0, 0x00b1, 0x2424, 0x240b, 0x2518, 0x2510, 0x250c, 0x2514, 0x253c, 0x23ba, 0x23bb, 0x2500, 0x23bc, 0x23bd, 0x251c, 0x2524,
+    0x2534, 0x252c, 0x2502, 0x2264, 0x2265, 0x03c0, 0x2260, 0x00a3, 0x00b7,
+];
+
+fn glyph_ok(input: char, drawing: bool, got: char) -> bool {
+    let v = input as u32;
+    if drawing && (0x60..=0x7e).contains(&v) {
+        let want = GFX[(v - 0x60) as usize];
+        let g = got as u32;
+        g == want || (v == 0x60 && g == 0x2666) || (v == 0x7e && g == 0x22c5)
+    } else {
+        got == input
+    }
+}
+
+/// CH-charset: Charset::translate for every char
+pub(crate) fn t_charset() {
+    let ch = any_char();
+    let drawing = any_bool();
+    let cs = if drawing { Charset::Drawing } else { Charset::Ascii };
+    let got = cs.translate(ch);
+    assert!(glyph_ok(ch, drawing, got), "[C04] DEC special graphics maps 0x60-0x7E to the VT100 line-drawing glyphs and nothing else");
+    kv_cover!(drawing && ch == 'q', "horizontal line");
+    kv_end!();
+}
+
+/// T-print: Print(ch) with the cursor row and margins constants of the instance
+pub(crate) fn t_print(c: TCfg) {
+    t_print_or_rep(c, false)
+}
+
+/// with `rep`: REP with a missing / zero / one count == typing the character left of the cursor once
+pub(crate) fn t_print_or_rep(c: TCfg, rep: bool) {
+    let mut t = mk_terminal(&c);
+    let pre = snap(&t);
+    let tw = tab_witness(&t);
+    let (cols, rows) = (c.cols, c.rows);
+    let (col, row) = (pre.col, pre.row);
+    let rep_n = any_u16();
+    let ch = if rep {
+        assume(col > 0 && rep_n <= 1);
+        cell_at(&t, pre.len - rows + row, col - 1).char()
+    } else {
+        let ch = any_char();
+        assume((ch as u32 >= 0x20 && ch as u32 <= 0x7f) || ch as u32 >= 0xa0);
+        ch
+    };
+    let (top, bottom) = (pre.top, pre.bottom);
+    let pw = col == cols;
+    let wrap = pre.auto_wrap && pw;
+    let drawing = if pre.active_charset == 0 { pre.g0_drawing } else { pre.g1_drawing };
+    // phase 1: deferred wrap
+    let scrolls = wrap && row == bottom;
+    let steps_down = wrap && row != bottom && row < rows - 1;
+    let corner = wrap && row != bottom && row == rows - 1; // below the region on the last row: left open
+    let growth = if scrolls { scroll_growth(rows, top, 1, true) } else { 0 };
+    let post_len = pre.len + growth;
+    let o = pre.len - rows;
+    let o2 = post_len - rows;
+    let col2 = if wrap { 0 } else { col };
+    let row2 = if steps_down { row + 1 } else { row };
+    // phase 2: the write
+    let last = col2 + 1 >= cols;
+    let tc = if last { cols - 1 } else { col2 };
+    let inserting = !last && pre.insert;
+    let w = any_wit(post_len, cols);
+    // where does the watched line come from (scroll of the region by one, if any)
+    let (line_src, mut msrc) = if scrolls { scroll_spec(o, pre.len, rows, top, bottom, 1, true, w.i) } else { (Some(w.i), MSrc::Same) };
+    // the row the cursor left is marked soft-wrapped
+    if wrap && !corner {
+        if let Some(j) = line_src {
+            if j == o + row {
+                msrc = MSrc::Val(true);
+            }
+        }
+    }
+    let on_target = w.i == o2 + row2;
+    let src = if on_target && w.c == tc {
+        Src::Unspec // checked separately (translated character, current pen)
+    } else {
+        let sc = if on_target && inserting && w.c > tc { w.c - 1 } else { w.c };
+        match line_src {
+            None => Src::Blank,
+            Some(j) => Src::From(j, sc),
+        }
+    };
+    let e = resolve(&t, &w, if corner { Src::Unspec } else { src }, if corner { MSrc::Unspec } else { msrc }, post_len);
+    if rep {
+        t.execute(Function::Rep(rep_n));
+    } else {
+        t.execute(Function::Print(ch));
+    }
+    if !corner {
+        assert!(b_len(&t.buffer) == post_len, "[C04][C06][C14] printing adds a line only by a wrap-scroll of a region that starts at the first row");
+        let tcell = cell_at(&t, o2 + row2, tc);
+        assert!(glyph_ok(ch, drawing, tcell.char()), "[C04] the character is written, translated through the active character set, into the cell under the cursor");
+        assert!(*tcell.pen() == pre.pen, "[C04][C08] the printed cell carries the current pen");
+        assert!(tcell.pen().foreground() == pre.pen.foreground && tcell.pen().background() == pre.pen.background && tcell.pen().is_bold() == (pre.pen.intensity == Intensity::Bold), "[C08] the printed cell reports the pen through its accessors");
+        check_exp!(&t, &w, e, "[C04] printing changes no other cell (insert mode shifts the rest of the row right, dropping the last cell)", "[C04] printing marks the row it left by auto-wrap as soft-wrapped and changes no other mark");
+        assert!(dl_get(&t.dirty_lines, row2), "[C15] the row printed on is reported as changed");
+        // cursor
+        if last {
+            if pre.auto_wrap {
+                assert!(t.cursor.col == cols && t.pending_wrap && t.cursor.row == row2, "[C04] in the last column the cursor parks in the wrap-pending position");
+            } else {
+                assert!(t.cursor.col == col && t.cursor.row == row && t.pending_wrap == pre.pending_wrap, "[C04] with auto-wrap off the cursor keeps overwriting the last column");
+            }
+        } else {
+            assert!(t.cursor.col == col2 + 1 && t.cursor.row == row2 && !t.pending_wrap, "[C04] the cursor advances one column");
+        }
+    }
+    let mut allow = Allow::default();
+    allow.cursor = true;
+    allow.len = true;
+    frame(&pre, &t, &allow, &tw);
+    assert_inv(&t);
+    kv_cover!(scrolls, "wrap on the bottom margin scrolls the region");
+    kv_cover!(steps_down, "wrap to the next row");
+    kv_cover!(pw && !pre.auto_wrap, "wrap pending with auto-wrap switched off");
+    kv_cover!(inserting && tc + 1 < cols, "insert mode in the middle of the row");
+    kv_cover!(drawing && ch == 'x', "drawing set");
+    kv_cover!(ch as u32 > 0xffff, "astral character");
+    kv_cover!(last && !pw, "print in the last column");
+    kv_end!();
+    forget(t);
+}
+
+// ------------------------------------------------------------------ REP (C04): twin terminals
+
+pub(crate) fn clone_term(t: &Terminal) -> Terminal {
+    let mut d = mk_dirty(t.rows, false);
+    for r in 0..t.rows {
+        if dl_get(&t.dirty_lines, r) {
+            d.add(r);
+        }
+    }
+    Terminal {
+        cols: t.cols,
+        rows: t.rows,
+        buffer: b_clone(&t.buffer),
+        other_buffer: b_clone(&t.other_buffer),
+        active_buffer_type: if t.active_buffer_type == BufferType::Primary { BufferType::Primary } else { BufferType::Alternate },
+        scrollback_limit: t.scrollback_limit,
+        cursor: t.cursor,
+        pen: t.pen,
+        charsets: [
+            if t.charsets[0] == Charset::Drawing { Charset::Drawing } else { Charset::Ascii },
+            if t.charsets[1] == Charset::Drawing { Charset::Drawing } else { Charset::Ascii },
+        ],
+        active_charset: t.active_charset,
+        tabs: t.tabs.clone(),
+        insert_mode: t.insert_mode,
+        origin_mode: t.origin_mode,
+        auto_wrap_mode: t.auto_wrap_mode,
+        new_line_mode: t.new_line_mode,
+        cursor_keys_mode: t.cursor_keys_mode,
+        pending_wrap: t.pending_wrap,
+        top_margin: t.top_margin,
+        bottom_margin: t.bottom_margin,
+        saved_ctx: SavedCtx {
+            cursor_col: t.saved_ctx.cursor_col,
+            cursor_row: t.saved_ctx.cursor_row,
+            pen: t.saved_ctx.pen,
+            origin_mode: t.saved_ctx.origin_mode,
+            auto_wrap_mode: t.saved_ctx.auto_wrap_mode,
+        },
+        alternate_saved_ctx: SavedCtx {
+            cursor_col: t.alternate_saved_ctx.cursor_col,
+            cursor_row: t.alternate_saved_ctx.cursor_row,
+            pen: t.alternate_saved_ctx.pen,
+            origin_mode: t.alternate_saved_ctx.origin_mode,
+            auto_wrap_mode: t.alternate_saved_ctx.auto_wrap_mode,
+        },
+        dirty_lines: d,
+        xtwinops: t.xtwinops,
+    }
+}
+
+/// T-rep: REP n == typing the character left of the cursor n times (n a constant of the instance)
+pub(crate) fn t_rep(c: TCfg, n: u16) {
+    let mut a = mk_terminal(&c);
+    let mut b = clone_term(&a);
+    let pre = snap(&a);
+    let tw = tab_witness(&a);
+    let reps = n1(n);
+    a.execute(Function::Rep(n));
+    if pre.col > 0 {
+        let left = cell_at(&b, pre.len - c.rows + pre.row, pre.col - 1).char();
+        for _ in 0..reps {
+            b.execute(Function::Print(left));
+        }
+    }
+    assert!(b_len(&a.buffer) == b_len(&b.buffer), "[C04] REP n scrolls exactly like typing the character n times");
+    let w = any_wit(b_len(&a.buffer), c.cols);
+    assert!(cell_at(&a, w.i, w.c) == cell_at(&b, w.i, w.c), "[C04] REP n repeats the character left of the cursor n times as if typed");
+    assert!(mark_at(&a, w.i) == mark_at(&b, w.i), "[C04] REP n wraps exactly like typing the character n times");
+    assert!(a.cursor == b.cursor && a.pending_wrap == b.pending_wrap, "[C04] REP n leaves the cursor where typing would");
+    let r = any_in(0, c.rows - 1);
+    assert!(dl_get(&a.dirty_lines, r) == dl_get(&b.dirty_lines, r), "[C15] REP n reports the rows typing would report");
+    if pre.col == 0 {
+        let mut allow = Allow::default();
+        allow.cursor = false;
+        frame(&pre, &a, &allow, &tw);
+    }
+    assert_inv(&a);
+    kv_cover!(pre.col == c.cols, "wrap-pending column");
+    kv_cover!(pre.col == 0, "nothing to repeat in the first column");
+    kv_end!();
+    forget(a);
+    forget(b);
+}
+
 include!("terminal_gen.rs");
